@@ -206,12 +206,13 @@ EventBs == <<<<0, 0, 0, 0>>, <<0, 0, 0, 1>>, <<0, 0, 0, 2>>, <<0, 0, 0, 3>>, <<0
              <<1, 0, 0, 0>>, <<3, 0, 0, 0>>, <<0, 0, 1, 0>>, <<0, 1, 0, 3>>, <<128, 0, 0, 2>>,
              <<0, 0, 0, 255>>, <<255, 255, 255, 255>>>>
 EventN == Len(EventBs)
-EventP(i) == [event |-> EventBs[i + 1]]
+EventName(b4) == CASE b4 = <<0, 0, 0, 0>> -> "none" [] b4 = <<0, 0, 0, 1>> -> "completed"
+                   [] b4 = <<0, 0, 0, 2>> -> "started" [] b4 = <<0, 0, 0, 3>> -> "stopped"
+                   [] OTHER -> ""
+EventP(i) == [event |-> EventBs[i + 1], name |-> EventName(EventBs[i + 1])]
 EventBytes(p) == Patch(BaseMsg("announce"), 80, p.event)
 EventX(p) == IF p.event \in {<<0, 0, 0, 0>>, <<0, 0, 0, 1>>, <<0, 0, 0, 2>>, <<0, 0, 0, 3>>}
              THEN X(TRUE, "ok", 0) ELSE X(FALSE, "bad_event", 0)
-EventName(b4) == CASE b4 = <<0, 0, 0, 0>> -> "none" [] b4 = <<0, 0, 0, 1>> -> "completed"
-                   [] b4 = <<0, 0, 0, 2>> -> "started" [] b4 = <<0, 0, 0, 3>> -> "stopped"
 
 (* protocol id of a connect request *)
 MagicBs == <<Magic>>
@@ -318,4 +319,10 @@ EventTableLaw == /\ c.g \in {"root", "group", "leaf"}
 
 (* negative control: a codec with started/stopped exchanged must be refuted *)
 BadEvCodes == [none |-> 0, completed |-> 1, started |-> 3, stopped |-> 2]
+(* ... leechers / seeders exchanged in the announce reply ... *)
+BadEncAnnounceResp(fam, r) ==
+    BE32(ActAnnounce) \o r.tid \o r.interval \o r.seeders \o r.leechers
+    \o Flatten([i \in 1..Len(r.peers) |-> EncPeer(r.peers[i])])
+(* ... little-endian action / event numbers ... *)
+BadBE32(n) == <<n % 256, (n \div 256) % 256, (n \div 65536) % 256, (n \div 16777216) % 256>>
 =============================================================================
